@@ -292,7 +292,7 @@ fn emit_shape(out: &mut Out, shape: &Shape, secp: &Secp256k1<secp256k1::All>) ->
 }
 
 fn extra_defs(out: &mut Out) {
-    for id in (10..21).chain(105..106) {
+    for id in (10..21).chain(104..106) {
         let k = full_key(id);
         let ser = k.to_bytes();
         let sort = k.inner.serialize();
@@ -372,7 +372,8 @@ fn shuffle<T>(v: &mut Vec<T>, rng: &mut Rng) { for i in (1..v.len()).rev() { let
 /// the multisig script built by hand from keys sorted by their serialisation
 fn manual_multisig(k: usize, keys: &[u32]) -> ScriptBuf {
     let mut pks: Vec<PublicKey> = keys.iter().map(|i| full_key(*i)).collect();
-    pks.sort_by_key(|p| p.to_bytes());
+    // BIP67 order of the compressed encodings; the same point in both forms: compressed first
+    pks.sort_by_key(|p| (p.inner.serialize().to_vec(), !p.compressed));
     let mut b = Builder::new().push_int(k as i64);
     for p in &pks { b = b.push_key(p); }
     b.push_int(keys.len() as i64).push_opcode(opcodes::all::OP_CHECKMULTISIG).into_script()
@@ -390,12 +391,12 @@ fn manual_multi_a(k: usize, keys: &[u32]) -> ScriptBuf {
 
 #[derive(Clone, Copy)]
 #[derive(PartialEq)]
-enum SmWrap { Wsh, Sh, ShWsh, NestedWsh, Tr, TrFull }
+enum SmWrap { Wsh, Sh, ShWsh, NestedWsh, Tr, TrFull, ShMixed }
 
 fn sm_shape(w: SmWrap, k: usize, keys: &[u32]) -> Shape {
     match w {
         SmWrap::Wsh => Shape::Wsh(Node::SortedMulti(k, keys.to_vec())),
-        SmWrap::Sh => Shape::Sh(Node::SortedMulti(k, keys.to_vec())),
+        SmWrap::Sh | SmWrap::ShMixed => Shape::Sh(Node::SortedMulti(k, keys.to_vec())),
         SmWrap::ShWsh => Shape::ShWsh(Node::SortedMulti(k, keys.to_vec())),
         SmWrap::NestedWsh => Shape::Wsh(Node::AndV(Box::new(Node::Verify(Box::new(Node::SortedMulti(k, keys.to_vec())))), Box::new(Node::Check(Box::new(Node::PkK(9)))))),
         SmWrap::Tr => Shape::Tr(209, vec![(1, Node::SortedMultiA(k, keys.to_vec())), (1, Node::Check(Box::new(Node::PkK(208))))]),
@@ -422,7 +423,7 @@ fn sm_spk(s: &Shape, full: bool) -> Result<(ScriptBuf, Option<ScriptBuf>), Strin
 fn part_sortedmulti(out: &mut Out, thorough: bool, rng: &mut Rng, secp: &Secp256k1<secp256k1::All>) -> u64 {
     let mut n_cases = 0u64;
     let sizes: Vec<usize> = if thorough { (1..=20).collect() } else { vec![1, 2, 3, 4, 5, 7, 12, 15, 20] };
-    for w in [SmWrap::Wsh, SmWrap::Sh, SmWrap::ShWsh, SmWrap::NestedWsh, SmWrap::Tr, SmWrap::TrFull] {
+    for w in [SmWrap::Wsh, SmWrap::Sh, SmWrap::ShWsh, SmWrap::NestedWsh, SmWrap::Tr, SmWrap::TrFull, SmWrap::ShMixed] {
         let full = w == SmWrap::TrFull;
         for &n in &sizes {
             let reps = if n <= 3 { 2 } else { 1 };
@@ -430,6 +431,8 @@ fn part_sortedmulti(out: &mut Out, thorough: bool, rng: &mut Rng, secp: &Secp256
                 let is_tr = matches!(w, SmWrap::Tr);
                 let mut pool: Vec<u32> = if is_tr { (200..221).collect() } else { (0..21).collect() };
                 if !is_tr && matches!(w, SmWrap::NestedWsh) { pool.retain(|k| *k != 9); }
+                // compressed AND uncompressed keys, the same point in both forms included (0/100 … 5/105)
+                if w == SmWrap::ShMixed { pool = (0..6).chain(100..106).collect(); if n > 5 { continue; } }
                 if is_tr { pool.retain(|k| *k != 208 && *k != 209); }
                 shuffle(&mut pool, rng);
                 if n > pool.len() { continue; }
@@ -481,7 +484,8 @@ fn part_sortedmulti(out: &mut Out, thorough: bool, rng: &mut Rng, secp: &Secp256
         })();
         out.line(&format!("J rustoracle sortedmulti-ctors n={} {}", n, verdict(r)), "ok");
     }
-    // the same key listed compressed and uncompressed: equal BIP67 sort keys, different pushes
+    // regression inputs of a former finding (fixed in /repo 2f8a2bb0): the same point listed compressed
+    // and uncompressed used to keep its listing order; judged like every other case now
     for (a, b) in [(5u32, 105u32), (3, 103)] {
         let base = Shape::Sh(Node::SortedMulti(1, vec![a, b]));
         let other = Shape::Sh(Node::SortedMulti(1, vec![b, a]));
@@ -492,6 +496,9 @@ fn part_sortedmulti(out: &mut Out, thorough: bool, rng: &mut Rng, secp: &Secp256
         emit_shape(out, &base, secp);
         emit_shape(out, &other, secp);
         out.line(&format!("J rustoracle sortperm {} {}", base.wire(), verdict(r)), "ok");
+        let m = manual_multisig(1, &[a, b]);
+        let v = match sm_spk(&base, false) { Ok((_, Some(e))) if e == m => Ok(()), _ => Err("manual script differs".to_string()) };
+        out.line(&format!("J rustoracle sorted-bip67 {} {}", base.wire(), verdict(v)), "ok");
     }
     n_cases
 }
